@@ -234,7 +234,8 @@ def rand_spec(profile, seed):
         for M in machines:
             for reg in M["regions"]:
                 for s_ in reg:
-                    if not M["kinds"].get(s_) and rnd.random() < 0.3:
+                    k = M["kinds"].get(s_, "")
+                    if (not k or k.startswith("sub:")) and rnd.random() < 0.3:      # simple states and sub-machine front-ends
                         M["state"].setdefault(s_, {})["data"] = True
     for M in machines:
         for k in ("_explicit", "_entry_pts", "_exit_pts"):
